@@ -82,3 +82,12 @@ CASES += [
          old="         formatDateTime( dest, field_def, \"%F\", msg.getTimestamp());",
          new="         {\n            static const char* const  date_format = \"%F\";\n            formatDateTime( dest, field_def, date_format, msg.getTimestamp());\n         }"),
 ]
+
+DEF = 'src/celma/log/formatting/definition.hpp'
+CRH = 'src/celma/log/formatting/creator.hpp'
+CASES += [
+    dict(id='c16-creator-width-short', prop='C16', file=CRH, expect='R7',
+         old="   int          mFixedWidth = 0;", new="   short        mFixedWidth = 0;"),
+    dict(id='c16-eq-field-width-long', prop='C16', file=DEF, expect=None,
+         old="      int          mFixedWidth;", new="      long         mFixedWidth;"),
+]
